@@ -106,7 +106,13 @@ class GemRig(Rig):
             ok = self.connect_and_select(timeout=timeout)
         if not ok:
             return False
-        return self.wait(lambda: self.comm_state == "COMMUNICATING", timeout)
+        # precondition of the checks that use this rig, not an oracle: plain polling, no idle shortcut
+        end = time.monotonic() + max(timeout, 10.0)
+        while time.monotonic() < end:
+            if self.comm_state == "COMMUNICATING":
+                return True
+            time.sleep(0.002)
+        return False
 
     def inject(self, stream, function, wbit, body, system):
         self.injected_systems.add(system)
